@@ -66,4 +66,17 @@ ImplCount(I) ==
 
 \* classes of the output, in listing order; <<>> when the whole derivation fails
 EntryClasses(P) == [i \in DOMAIN P.traits |-> IF EntryError(P, P.traits[i]) THEN "error" ELSE "impl"]
+
+\* the same with `dump` (doc "Display generated code"): P.dump = "none" | "all" (the list carries `dump`)
+\* | "first" (only the first entry carries `dump`).  A dumped entry that builds is shown as an error
+\* carrying its code; a failing entry shows its own error whether dumped or not.
+Dumped(P, i) == P.dump = "all" \/ (P.dump = "first" /\ i = 1)
+EntryClassesD(P) ==
+    [i \in DOMAIN P.traits |-> EntryClass(~EntryError(P, P.traits[i]), Dumped(P, i))]
+
+\* what the attribute entry removes from the re-emitted item (names), cf. DxAttrs!Owned
+RemovedNames(P) ==
+    IF P.kind \notin {"struct", "enum"} THEN {}
+    ELSE IF ~ListsReadable(P) THEN {"derive_ex"}
+    ELSE {n \in OwnAttrs : Owned(n, DerivedOf(P))}
 =============================================================================
